@@ -195,18 +195,21 @@ class P(Prop):
         (M, "TV.C13.csv_file_roundtrip", "whole file: writeToFile(h) - data lines, preceded for h>0 by the three comment lines #srid/#ref point/#column names - then readFromCsv(h=hr) returns the same observations in the same order for every hr up to the number of header lines written (0 for h=0, else 3)"),
         (M, "TV.C13.csv_file_roundtrip_matching", "the matching call: written with the flag h in {0,1} and read with h=h, every observation comes back"),
         (M, "TV.C13.csv_header_block_roundtrip", "reader side of the header option: `header` first lines of any content, comment lines, then the data lines are read as exactly the observations"),
+        (M, "TV.C13.writeToCsv_roundtrip", "the front end TrackWriter.writeToCsv(track, path, TrackFormat) writes what writeToFile writes with the format's ids, separator and header: the file is read back as the same observations"),
+        (M, "TV.C13.writeToCsv_collection_roundtrip", "writeToCsv(collection, dir, TrackFormat) = writeToFiles: one file per track, each read back as its track"),
         (M, "TV.C13.csv_read_all_roundtrip", "feature columns: a file written with its header block and af_names, values of any kind (int, float, str, nan, inf), is read back by readFromCsv(h=0|1|2, read_all=True) as the same observations, the same feature names in order, and per observation the values expAF(name, value)"),
         (M, "TV.C13.read_all_values", "what expAF is: int -> the same number, float n/10^d -> the printed decimal (value n/10^d), nan/inf -> themselves, a non-numeric string without quotes -> itself; names ending in & keep the text; ints and floats are always writable as one column"),
         (M, "TV.C13.time_roundtrip", "readTimestamp(str(t)) gives back the fields named by a format of distinct full-width codes, for every stamp that fits the widths"),
         (M, "TV.C13.time_roundtrip_suffix", "the same when text follows the printed stamp (the Z of a GPX <time>)"),
         (M, "TV.C13.time_roundtrip_full", "with the six calendar codes the calendar part is read back identically"),
         (M, "TV.C13.fits_of_wf", "every well-formed ObsTime before year 10000 fits the widths"),
-        (M, "TV.C13.wkt_roundtrip", "parseWkt(track.toWKT()) returns the same vertices in the same order for every non-empty lattice track"),
+        (M, "TV.C13.wkt_roundtrip", "parseWkt(track.toWKT()) returns the same vertices in the same order for every non-empty lattice track in ENU, Geo or ECEF coordinates"),
         (M, "TV.C13.repr_value", "float(str(n/10^d)) has the value n/10^d (trailing zeros trimmed)"),
         (M, "TV.C13.network_row_roundtrip", "an edge line written by writeToCsv is split by csv.reader into its five fields and rebuilt by readLineAndAddToNetwork as the same edge"),
         (M, "TV.C13.net_file_roundtrip", "whole network file: h=1/header=1 and h=0/header=0 both return all edges in order"),
         (M, "TV.C13.gpx_file_roundtrip", "the body writeToGpx writes for a track is read by the trk scanner, with an ISO read format, as one track with the same points in order (elevation only for geographic coordinates)"),
-        (M, "TV.C13.gpx_af_file_roundtrip", "the same for writeToGpx(af=True): the <extensions> block of every point (one <name>value</name> line per feature, none of which contains a text the scanner looks for) is stepped over, the points come back unchanged"),
+        (M, "TV.C13.gpx_af_file_roundtrip", "the same for writeToGpx(af=True): the reader skips the <extensions> block of every point (one <name>value</name> line per feature, none of which closes the block itself), the points come back unchanged whatever the features are called"),
+        (M, "TV.C13.gpx_af_names_ok", "every feature name without < > newline, not starting with / and other than 'extensions', with a value text without < and newline, is fine for gpx_af_file_roundtrip - time, ele, trk, trkpt included"),
         (M, "TV.C13.reread_roundtrip", "a timestamp text read under ANY lossless read format f2 gives the stamp whose text under f2 it is - whatever format it was printed with and whatever was read before (the oracle clause of the reread / twin-format sessions)"),
         (M, "TV.C13.gpx_read_formats", "'4Y-2M-2DT2h:2m:2s' with or without Z reads the stamps the GPX writer prints, calendar part unchanged"),
         (M, "TV.C13.written_precision_partial", "on the decimal lattice the printed coordinate and what float() reads denote the same number (format()'s rounding of arbitrary doubles not covered)"),
@@ -227,10 +230,10 @@ class P(Prop):
                 "header and comment lines, feature creation from the last line's fields, the second pass with its raw first line, float()/str values, names "
                 "ending in &), ObsTime.__str__/__precompileReadFmt/readTimestamp/__fillMember "
                 "(tokenised format, no '*' wildcard), NetworkWriter.writeToCsv, NetworkReader.readFromFile + readLineAndAddToNetwork + "
-                "wktLineStringToObs + Network.addNode order (first registration of a node id wins, whatever the later end vertices), Track.toWKT (ENU, Geo; "
-                "ECEF writes no coordinates), TrackReader.parseWkt (POLYGON, LINESTRING, the MULTIPOLYGON branch's AttributeError), TrackWriter.writeToGpx body "
+                "wktLineStringToObs + Network.addNode order (first registration of a node id wins, whatever the later end vertices), Track.toWKT (ENU, Geo, "
+                "ECEF), TrackWriter.writeToCsv (track -> writeToFile, collection -> writeToFiles), TrackReader.parseWkt (POLYGON, LINESTRING, the MULTIPOLYGON branch's AttributeError), TrackWriter.writeToGpx body "
                 "with and without af=True (<extensions> block), "
-                "TrackReader.__readFromGpx (type trk, as per-tag steps gpxPt/gpxEndPt/gpxEle/gpxTime); the header block of writeToFile (h > 0: #srid, #ref point, #column names + feature names; no Reference epoch line, fmt.time_ini stays -1)")
+                "TrackReader.__readFromGpx (type trk: the <extensions> block skipped, then the per-tag steps gpxPt/gpxEndPt/gpxEle/gpxTime); the header block of writeToFile (h > 0: #srid, #ref point, #column names + feature names; no Reference epoch line, fmt.time_ini stays -1)")
     trusted = ["Python's format()/repr()/float()/int() on the decimal lattice are modelled by an own decimal printer/parser; the rounding done by format() on "
                "off-lattice floats is computed by the harness with exact rational arithmetic and handed to the model",
                "csv.reader is modelled as its documented state machine (delimiter, doublequote); file system calls are trusted"]
@@ -238,7 +241,7 @@ class P(Prop):
             "writer h in {1,2,3} x reader header 0..5 (correspondence); random tracks of 1-6 fixes with "
             "negative / 1e6-large / many-decimal coordinates on and off the 1 mm / 1e-8 deg lattice, timestamps at midnight, month, year ends and leap days; "
             "time formats; feature columns (0-3, int / float / str / nan values, names incl. `k&`, `time`, `ele`) read back with read_all for writer h 0-3 x reader header 0-4; "
-            "GPX write/read, 40 % with af=True; networks of 1-5 edges, three orientations, 2-5 vertices, ids that are numeric strings, user weights, half of them NOT "
+            "the front end writeToCsv on a track and on a collection (one file per track); GPX write/read, 40 % with af=True (feature names incl. time, ele, trk, trkpt); networks of 1-5 edges, three orientations, 2-5 vertices, ids that are numeric strings, user weights, half of them NOT "
             "topologically exact (edges sharing a node id end up to a few units beside the node's registered position; self loops); WKT (ENU, Geo, ECEF) and hand-made "
             "POLYGON / LINESTRING / MULTIPOLYGON texts; sessions of 2-6 operations (CSV, GPX to one file, GPX to one file per track in a directory, network, WKT, "
             "timeWithZone, KML, readTimestamp / ObsTime(str)) sharing the global ObsTime formats - set once at the start, or changed by the user between operations "
@@ -257,19 +260,6 @@ class P(Prop):
         self.Network, self.Node, self.Edge = Network, Node, Edge
         self.TW, self.TR, self.NW, self.NR, self.NF = TrackWriter, TrackReader, NetworkWriter, NetworkReader, NetworkFormat
         self.tmp = tempfile.gettempdir()
-        # TrackWriter.writeToCsv(track, path, TrackFormat) reads `track_format.h`, an attribute TrackFormat does not have (it has
-        # `header`): AttributeError before anything is written. When that is repaired the front end is the model's writeToFile.
-        import inspect
-        self.front_ok = "track_format.h\n" not in inspect.getsource(TrackWriter.writeToCsv) and "track_format.h " not in inspect.getsource(TrackWriter.writeToCsv)
-        # classes of known_findings.json: a finding met by this check whose entry is not listed yet (the file is maintained by
-        # hand, not by the checks) is exercised by the correspondence only; once listed, the oracle reports it and the engine
-        # excuses it as a KNOWN-FINDING
-        import json
-        try:
-            with open(os.path.join(os.path.dirname(os.path.dirname(os.path.dirname(os.path.abspath(__file__)))), "known_findings.json")) as fh:
-                self.known_classes = {e.get("class") for e in json.load(fh).get("entries", []) if e.get("property") == "C13" and e.get("status") == "finding"}
-        except Exception:
-            self.known_classes = set()
 
     def tmpfile(self, ext):
         """one scratch file per process, removed after every case (no directory is left behind by pool workers)"""
@@ -369,8 +359,8 @@ class P(Prop):
         """a small network. `loose` (half of the cases): the network is not topologically exact - an edge attached to a node
         that an earlier edge registered may end a little beside that node's position (end nodes merged within a tolerance, as
         map data delivers them), so several edges share a node id while their end vertices differ"""
-        srid = srid or rng.choice(["ENU", "ENU", "GEO"])
-        q = 3 if srid == "ENU" else 8
+        srid = srid or rng.choice(["ENU", "ENU", "GEO"])     # (the network reader refuses ECEF: 2D lengths are not defined on it)
+        q = 8 if srid == "GEO" else 3
         nn = rng.choice([2, 3, 4])
         names = []
         while len(names) < nn:
@@ -434,8 +424,8 @@ class P(Prop):
         if kind == "net":
             return self.net_case(rng, sep=rng.choice([",", ";"]), h=1)
         if kind == "wkt":
-            srid = rng.choice(["ENU", "GEO"])
-            q = 3 if srid == "ENU" else 8
+            srid = rng.choice(["ENU", "GEO", "ECEF"])
+            q = 8 if srid == "GEO" else 3
             pts = []
             while len(pts) < 2:
                 p = [self.rand_coord(rng, srid, 0, q), self.rand_coord(rng, srid, 1, q)]
@@ -641,9 +631,12 @@ class P(Prop):
                     out.append(self.csv_case(rng, rng.choice(L), rng.choice([",", ";", "|"]), h, rng.choice(SRIDS), hdrR=hdrR,
                                              naf=rng.choice([0, 1, 2]), n=rng.choice([1, 2, 3])))
         # the other CSV entry point of the writer: TrackWriter.writeToCsv(track, path, TrackFormat)
-        for _ in range(3):
-            c = self.csv_case(rng, rng.choice(L), rng.choice([",", ";"]), rng.choice([0, 1]), rng.choice(SRIDS), n=2)
+        for _ in range(300 if not thorough else 3000):
+            c = self.csv_case(rng, rng.choice(L), rng.choice([",", ";", "|", "\t"]), rng.choice([0, 1, 1]), rng.choice(SRIDS), q=rng.choice(["lat", "lat", None]),
+                              pfmt=rng.choice(CSV_FMTS), n=rng.choice([1, 2, 3]))
             c["front"] = "writeToCsv"
+            if rng.random() < 0.3:     # a collection: one file track_output_<i>.csv per track in a directory
+                c["more"] = [self.rand_rows(rng, c["srid"], rng.choice([1, 2]), c["q"])[0] for _ in range(rng.choice([1, 2]))]
             out.append(c)
         # feature columns with int / float / str / nan values, read back with read_all (the names come from the header block)
         for _ in range(1500 if not thorough else 15000):
@@ -666,9 +659,8 @@ class P(Prop):
                  "tid": rng.choice([0, 7, "trace", "t-1"])}
             if rng.random() < 0.4:       # writeToGpx(af=True): an <extensions> block per point
                 naf = rng.choice([0, 1, 2, 3])
-                c["af_names"] = rng.sample(AF_NAMES[:9] if rng.random() < 0.9 else AF_NAMES[:11], naf)
-                # (a feature named like a tag the scanner reads gets plain integers: the model's <ele> has no nan / inf)
-                c["afs"] = [[self.rand_af(rng, nm not in ("ele", "time")) for nm in c["af_names"]] for _ in rows]
+                c["af_names"] = rng.sample(AF_NAMES[:8] + ["time", "ele", "trk", "trkpt", "E"], naf)
+                c["afs"] = [[self.rand_af(rng, True) for nm in c["af_names"]] for _ in rows]
             out.append(c)
         for _ in range(10):
             rows, q = self.rand_rows(rng, "GEO", q=8)
@@ -689,8 +681,8 @@ class P(Prop):
             out.append(c)
         # --- WKT
         for _ in range(1000 if not thorough else 20000):
-            srid = rng.choice(["ENU", "GEO"])
-            q = 3 if srid == "ENU" else 8
+            srid = rng.choice(["ENU", "GEO", "ECEF"])
+            q = 8 if srid == "GEO" else 3
             n = rng.choice([1, 2, 3, 5, 8])
             pts = []
             while len(pts) < n:
@@ -698,9 +690,6 @@ class P(Prop):
                 if all(v == 0 or abs(v) >= 10 ** (q - 4) for v in p):
                     pts.append(p)
             out.append({"kind": "wkt", "srid": srid, "q": q, "pts": pts})
-        for n in (1, 2, 3):
-            for _ in range(3):
-                out.append({"kind": "wkt", "srid": "ECEF", "q": 3, "pts": [[self.rand_coord(rng, "ECEF", 0, 3), self.rand_coord(rng, "ECEF", 1, 3)] for _ in range(n)]})
         # WKT texts as other tools write them, parsed by TrackReader.parseWkt (reader only): polygons, z values, blanks, case
         for _ in range(400 if not thorough else 4000):
             out.append(self.wktp_case(rng))
@@ -752,11 +741,6 @@ class P(Prop):
             t["fmt"] = case["fmt"]
             t["formats_change"] = any(o["kind"] == "setfmt" or o.get("mid_print") for o in case["ops"])
         return t
-
-    @staticmethod
-    def gpx_tag_names(case):
-        """feature names that make an <extensions> line look like one of the lines the GPX scanner reacts to"""
-        return [n for n in case.get("af_names", []) if n in ("ele", "time", "trk", "trkpt") or n.startswith("trkpt ")]
 
     @staticmethod
     def net_exact(case):
@@ -1056,6 +1040,8 @@ class P(Prop):
             trk.createAnalyticalFeature(nm)
             for i in range(len(case["rows"])):
                 trk.setObsAnalyticalFeature(nm, i, af_py(case["afs"][i][j]))
+        if case.get("more"):
+            return self.impl_csv_collection(case)
         path = self.tmpfile("csv")
         try:
             try:
@@ -1095,6 +1081,41 @@ class P(Prop):
         finally:
             if os.path.exists(path):
                 os.remove(path)
+
+    def impl_csv_collection(self, case):
+        """TrackWriter.writeToCsv(collection, <directory>, TrackFormat): one file track_output_<i>.csv per track"""
+        from tracklib.io import TrackFormat
+        T = self.ObsTime
+        ids = case["ids"]
+        coll = self.TrackCollection()
+        all_rows = [case["rows"]] + case["more"]
+        for rows in all_rows:
+            coll.addTrack(self.mk_track(case["srid"], rows, case["q"]))
+        d = tempfile.mkdtemp(prefix="c13c_")
+        try:
+            tf = TrackFormat({"ext": "CSV", "id_E": ids["E"], "id_N": ids["N"], "id_U": ids["U"], "id_T": ids["T"], "separator": case["sep"], "header": case["h"]})
+            try:
+                self.lib("TrackWriter.writeToCsv(collection)", self.TW.writeToCsv, coll, d, tf)
+            except Exception as e:
+                return {"werr": self.ekind(e)}
+            if not self.ambient:
+                T.setReadFormat(case["rfmt"])
+            files = []
+            for i in range(len(all_rows)):
+                path = os.path.join(d, "track_output_%d.csv" % i)
+                try:
+                    with open(path, newline="") as fh:
+                        text = fh.read()
+                except OSError:
+                    return {"werr": "nofile"}
+                try:
+                    back = self.lib("TrackReader.readFromCsv", self.TR.readFromCsv, path, ids["E"], ids["N"], ids["U"], ids["T"], case["sep"], h=case["hdrR"], srid=case["srid"])
+                    files.append({"text": text, "read": self.obs_rows(back)})
+                except Exception as e:
+                    files.append({"text": text, "read": self.ekind(e)})
+            return {"text": files[0]["text"], "read": files[0]["read"], "others": files[1:], "nfiles": len(os.listdir(d))}
+        finally:
+            shutil.rmtree(d, True)
 
     def impl_gpx(self, case):
         T = self.ObsTime
@@ -1206,8 +1227,8 @@ class P(Prop):
             return ["C13.fix %d %d %d" % (case["w"], case["d"], n) for n in case["ns"]]
         if k == "time":
             return ["C13.time %s %s %s" % (hx(case["pfmt"]), hx(case["rfmt"]), " ".join(map(str, case["t"])))]
-        if k == "csv" and case.get("front") == "writeToCsv" and not self.front_ok:
-            return []            # this front end raises before it writes anything: nothing to model
+        if k == "csv" and case.get("more"):
+            return [l for rows in [case["rows"]] + case["more"] for l in self.requests(dict({kk: v for kk, v in case.items() if kk != "more"}, rows=rows))]
         if k == "csv":
             ids = case["ids"]
             geo = case["srid"] == "GEO"
@@ -1217,7 +1238,8 @@ class P(Prop):
             names = ",".join(hx(n) for n in case.get("af_names", [])) or "_"
             return ["C13.csv %d %d %d %d %d %d %d %d %s %s %d %s %s %s %d" % (geo, ids["E"], ids["N"], ids["U"], ids["T"], ord(case["sep"]), case["h"],
                                                                              case["hdrR"], hx(case["pfmt"]), hx(case["rfmt"]), naf, rows,
-                                                                             hx(case["srid"]), names, bool(case.get("read_all")))]
+                                                                             hx(case["srid"]), names,
+                                                                             2 if case.get("front") == "writeToCsv" else bool(case.get("read_all")))]
         if k == "gpx" and "af_names" in case:
             rows = ";".join(self.row_tok(r, case["q"], 8, case["afs"][i]) for i, r in enumerate(case["rows"]))
             return ["C13.gpxaf %d %s %s %d %s %s" % (case["srid"] == "GEO", hx(case["rfmt"]), hx(str(case["tid"])), len(case["af_names"]),
@@ -1229,8 +1251,6 @@ class P(Prop):
             es = ";".join("%s,%s,%s,%d,%s" % (hx(e["id"]), hx(e["src"]), hx(e["tgt"]), e["orient"],
                                               "|".join("%d:%d" % (p[0], p[1]) for p in e["geom"])) for e in case["edges"])
             return ["C13.net %d %d %d %d %d %s" % (ord(case["sep"]), case["h"], case["hdrR"], case["q"], case["posdir"], es)]
-        if k == "wkt" and case["srid"] == "ECEF":
-            return ["C13.wktecef %d" % len(case["pts"])]
         if k == "wkt":
             return ["C13.wkt %d %s" % (case["q"], "|".join("%d:%d" % (p[0], p[1]) for p in case["pts"]))]
         if k == "wktp":
@@ -1282,8 +1302,12 @@ class P(Prop):
         if k == "time":
             h, b = replies[0].split(" ")
             return {"text": unhx(h), "back": "value" if b == "none" else [int(v) for v in b.split(",")]}
-        if k == "csv" and case.get("front") == "writeToCsv" and not self.front_ok:
-            return {"werr": "AttributeError"}
+        if k == "csv" and case.get("more"):
+            one = {kk: v for kk, v in case.items() if kk != "more"}
+            ds = [self.decode(dict(one, rows=rows), [r]) for rows, r in zip([case["rows"]] + case["more"], replies)]
+            if any("werr" in d for d in ds):
+                return next(d for d in ds if "werr" in d)
+            return {"text": ds[0]["text"], "read": ds[0]["read"], "others": [{"text": d["text"], "read": d["read"]} for d in ds[1:]]}
         if k == "wktp":
             r = replies[0]
             return {"read": r[4:] if r.startswith("err:") else [self.v3(t) for t in r[3:].split("|")]}
@@ -1361,6 +1385,11 @@ class P(Prop):
             return "GPX metadata block is not the expected one"
         if impl_out["read"] != model_out["read"]:
             return "read back: impl=%s model=%s" % (str(impl_out["read"])[:300], str(model_out["read"])[:300])
+        for j, (fi, fm) in enumerate(zip(impl_out.get("others", []), model_out.get("others", []))):
+            if fi != fm:
+                return "file track_output_%d.csv: impl=%s model=%s" % (j + 1, str(fi)[:300], str(fm)[:300])
+        if len(impl_out.get("others", [])) != len(model_out.get("others", [])):
+            return "number of files written for the collection"
         if impl_out.get("af") != model_out.get("af"):
             return "read_all features: impl=%s model=%s" % (str(impl_out.get("af"))[:300], str(model_out.get("af"))[:300])
         for j, rr in enumerate(impl_out.get("rereads", [])):
@@ -1383,7 +1412,7 @@ class P(Prop):
             return "time format is not read back with itself / is lossy"
         if ids["T"] != -1 and not FULL_CODES <= {c for kd, c in fmt_tokens(case["pfmt"]) if kd == "code"}:
             return "time format omits a field"
-        for r in case["rows"]:
+        for r in case["rows"] + [r for rows in case.get("more", []) for r in rows]:
             for v in r[:2]:
                 x = cval(v, case["q"])
                 d = 10 if case["srid"] == "GEO" else 3
@@ -1496,11 +1525,17 @@ class P(Prop):
         if k == "csv":
             if self.csv_domain(case) is not None:
                 return None
-            if "werr" in out and case.get("front") == "writeToCsv" and "writetocsv-front-end" not in self.known_classes:
-                return None
             if "werr" in out:
                 return "%s raised %s" % (case.get("front", "writeToFile"), out["werr"])
             ids = case["ids"]
+            if case.get("more"):
+                if out.get("nfiles") != 1 + len(case["more"]) or len(out.get("others", [])) != len(case["more"]):
+                    return "writeToCsv(collection): %d tracks, %s files" % (1 + len(case["more"]), out.get("nfiles"))
+                for j, (rows, fo) in enumerate(zip(case["more"], out["others"])):
+                    m = self.check_rows(rows, fo["read"], case["q"], case["srid"], "csv", ids["U"] != -1, ids["T"] != -1,
+                                        "CSV collection file track_output_%d.csv sep %r h=%d ids %s" % (j + 1, case["sep"], case["h"], ids))
+                    if m:
+                        return m
             for j, rd in enumerate([out["read"]] + out.get("rereads", [])):
                 m = self.check_rows(case["rows"], rd, case["q"], case["srid"], "csv", ids["U"] != -1, ids["T"] != -1,
                                     "CSV %s sep %r h=%d ids %s time format %r%s" % (case["srid"], case["sep"], case["h"], ids, case["pfmt"],
@@ -1510,8 +1545,6 @@ class P(Prop):
             return None
         if k == "gpx":
             if not fmt_is_lossless(case["rfmt"].rstrip("Z")) or not case["rfmt"].startswith(ISO_FMT):
-                return None
-            if self.gpx_tag_names(case) and "gpx-extension-named-like-a-tag" not in self.known_classes:
                 return None
             if isinstance(out["read"], str):
                 return "GPX: reading the written file raised %s" % out["read"]
@@ -1551,8 +1584,6 @@ class P(Prop):
             return None
         if k == "wkt":
             rd = out["read"]
-            if case["srid"] == "ECEF" and "wkt-ecef-empty" not in self.known_classes:
-                return None
             if isinstance(rd, str):
                 return "WKT: parsing the exported text %r raised %s" % (out["text"], rd)
             want = [[cval(p[0], case["q"]), cval(p[1], case["q"])] for p in case["pts"]]
@@ -1564,14 +1595,8 @@ class P(Prop):
     def classify(self, case, impl_out, msg):
         k = case["kind"]
         if k == "csv":
-            if case.get("front") == "writeToCsv" and isinstance(impl_out, dict) and impl_out.get("werr") == "AttributeError":
-                return "writetocsv-front-end"
             if case["ids"]["T"] != -1 and case["sep"] in case["pfmt"]:
                 return "csv-separator-in-timestamp"
-        if k == "wkt" and case["srid"] == "ECEF":
-            return "wkt-ecef-empty"
-        if k == "gpx" and self.gpx_tag_names(case):
-            return "gpx-extension-named-like-a-tag"
         if k == "gpx" and case["srid"] != "GEO" and any(r[2] != 0 for r in case["rows"]):
             return "gpx-elevation-non-geo"
         return None
@@ -1615,7 +1640,7 @@ class P(Prop):
         if k in ("csv", "gpx") and case.get("af_names"):
             c = dict(case); c.pop("af_names"); c.pop("afs"); yield c
         if k == "csv":
-            for key in ("nread", "mid_print"):
+            for key in ("nread", "mid_print", "more"):
                 if key in case:
                     c = dict(case); c.pop(key); yield c
         if k in ("csv", "gpx"):
